@@ -17,7 +17,9 @@ ALLOC = {"vec!", "Vec", "String", "Box", "Rc", "Arc", "format!", "to_vec", "to_s
          "HashMap", "HashSet", "VecDeque", "BinaryHeap", "LinkedList", "into_vec", "from_utf8_lossy",
          "to_lowercase", "to_uppercase", "to_ascii_lowercase", "to_ascii_uppercase", "with_capacity",
          "read_to_end", "read_to_string", "write_fmt", "print!", "println!", "eprintln!", "eprint!", "dbg!",
-         "panic_any", "ToString", "ToOwned"}
+         "panic_any", "ToString", "ToOwned",
+         # stable sorts live in `alloc` (merge-sort scratch buffer); only the *_unstable family is core
+         "sort", "sort_by", "sort_by_key", "sort_by_cached_key"}
 
 # operation (as named in the `alloc` probe stream) -> root function names
 ROOTS = {
